@@ -76,9 +76,9 @@ func runUpDown(vec map[string]interface{}) map[string]interface{} {
 	// layout must not matter: lower-case letters, wrapped lines, CRLF
 	qs := seqList(gList(vec, "queries"), "q", gBool(vec, "lowq"))
 	ts := seqList(gList(vec, "targets"), "t", gBool(vec, "lowt"))
-	refFa := renderFasta([]rec{{"ref", ref}}, gIntD(vec, "wrapr", 0), false)
-	qFa := renderFasta(qs, gIntD(vec, "wrapq", 0), gBool(vec, "crlfq"))
-	tFa := renderFasta(ts, gIntD(vec, "wrapt", 0), gBool(vec, "crlft"))
+	refFa := chopNl(renderFasta([]rec{{"ref", ref}}, gIntD(vec, "wrapr", 0), false), gBool(vec, "nonlr"))
+	qFa := chopNl(renderFasta(qs, gIntD(vec, "wrapq", 0), gBool(vec, "crlfq")), gBool(vec, "nonlq"))
+	tFa := chopNl(renderFasta(ts, gIntD(vec, "wrapt", 0), gBool(vec, "crlft")), gBool(vec, "nonlt"))
 	obs := map[string]interface{}{}
 
 	list := func(fa []byte, prefix string) (map[string]interface{}, []byte, bool) {
@@ -182,6 +182,9 @@ func runUpDown(vec map[string]interface{}) map[string]interface{} {
 		files := map[string][]byte{"q.fasta": qFa, "t.fasta": tFa, "ref.fa": refFa}
 		if len(ignore) > 0 {
 			files["ignore.txt"] = []byte(strings.Join(ignore, "\n") + "\n")
+			if (len(qs)+len(ts))%2 == 0 {
+				files["ignore.txt"] = []byte(strings.Join(ignore, "\n")) // no final newline
+			}
 			args = append(args, "--ignore", "@ignore.txt")
 		}
 		for k, v := range cliRun(cliCase{files: files, args: args, inproc: ff, outflag: "-o"}) {
